@@ -693,4 +693,186 @@ theorem ors_sim : ∀ f : Nat,
             refine cont x x' hx _ _ ?_ ?_ <;> (split <;> rfl)
           · refine cont (a, es, rv) (b, es, rv) ⟨h.1, rfl⟩ _ _ ?_ ?_ <;> (simp only [pure_bind'']; split <;> rfl)
 
+
+theorem trynext_sim : ∀ f : Nat,
+    (∀ t t' es, Sim t t' → ORel R3 (tryNext f t es) (tryNext f t' es)) ∧
+    (∀ cs cs' start es, SimL cs cs' → ORel R3L (tryBack f cs start es) (tryBack f cs' start es)) ∧
+    (∀ cs cs' js es, SimL cs cs' → (∀ j ∈ js, ∀ ch, cs[j]? = some ch → ch.atLeastSome = true) →
+      ORel R3L (tryFwd f cs js es) (tryFwd f cs' js es)) := by
+  intro f
+  induction f with
+  | zero =>
+    exact ⟨fun _ _ _ _ => by simp [tryNext, ORel], fun _ _ _ _ _ => by simp [tryBack, ORel],
+      fun _ _ _ _ _ _ => by simp [tryFwd, ORel]⟩
+  | succ f ih =>
+    obtain ⟨ih1, ih2, ih3⟩ := ih
+    refine ⟨?_, ?_, ?_⟩
+    · intro t t' es h
+      rcases Sim_cases h with ⟨n, v, im, rfl, rfl⟩ | ⟨v, c, c1, c1', k, cs, cs', rfl, rfl, hs, hc⟩ |
+        ⟨v, c, c1, k, c', c1', k', cs, cs', rfl, rfl, hs⟩ | ⟨v, c, c1, k, c', c1', k', cs, cs', rfl, rfl, hs⟩
+      · exact ORel_same (fun a => ⟨Sim_refl _, rfl⟩) _
+      · simp only [tryNext, SimL_length hs]
+        split
+        · exact ORel_ok ⟨⟨rfl, rfl, rfl, hs, hc⟩, rfl⟩
+        · rename_i hcl
+          rcases hc with hc | hc
+          · subst hc
+            split
+            · exact ORel_crash _
+            · rename_i i _
+              rcases SimL_get i hs with e | ⟨x, y, e1, e2, e3⟩
+              · rw [e.1, e.2]; exact ORel_crash _
+              · rw [e1, e2]
+                simp only [Sim_isSimple e3]
+                have step1 : ORel R3 (if (!y.isSimple) = true then tryNext f x es else pure (x, es, MT.nomore))
+                    (if (!y.isSimple) = true then tryNext f y es else pure (y, es, MT.nomore)) := by
+                  split
+                  · exact ih1 x y es e3
+                  · exact ORel_pure ⟨e3, rfl⟩
+                have rest : ∀ (a a' : ST × Ents × MT), R3 a a' → ∀ o o',
+                    o = (if ((!y.isSimple) && decide (a.2.2 = .all)) = true then pure (ST.mult .or v c c1 k (cs.set i a.1), a.2.1, MT.all)
+                      else if ((!y.isSimple) && decide (a.2.2 = .newchoice)) = true then pure (ST.mult .or v c c1 k (cs.set i a.1), a.2.1, MT.newchoice)
+                      else unmarkAll f a.1 a.2.1 >>= fun u =>
+                        if k = 1 then pure (ST.mult .or v listEnd c1 k ((cs.set i a.1).set i u.1), u.2, MT.nomore)
+                        else acceptChoice f (ST.mult .or v (c + 1) c1 k ((cs.set i a.1).set i u.1)) u.2 >>= fun w =>
+                          if w.2.2 = true then pure (w.1, w.2.1, if allMarked w.2.1 = true then MT.all else MT.newchoice)
+                          else pure (w.1, w.2.1, MT.nomore)) →
+                    o' = (if ((!y.isSimple) && decide (a'.2.2 = .all)) = true then pure (ST.mult .or v c c1 k (cs'.set i a'.1), a'.2.1, MT.all)
+                      else if ((!y.isSimple) && decide (a'.2.2 = .newchoice)) = true then pure (ST.mult .or v c c1 k (cs'.set i a'.1), a'.2.1, MT.newchoice)
+                      else unmarkAll f a'.1 a'.2.1 >>= fun u =>
+                        if k = 1 then pure (ST.mult .or v listEnd c1 k ((cs'.set i a'.1).set i u.1), u.2, MT.nomore)
+                        else acceptChoice f (ST.mult .or v (c + 1) c1 k ((cs'.set i a'.1).set i u.1)) u.2 >>= fun w =>
+                          if w.2.2 = true then pure (w.1, w.2.1, if allMarked w.2.1 = true then MT.all else MT.newchoice)
+                          else pure (w.1, w.2.1, MT.nomore)) →
+                    ORel R3 o o' := by
+                  intro a a' haa o o' ho ho'
+                  rw [ho, ho']
+                  obtain ⟨a1, a2, a3⟩ := a
+                  obtain ⟨b1, b2, b3⟩ := a'
+                  obtain ⟨h1, h2⟩ := haa
+                  simp only at h1 h2
+                  cases h2
+                  simp only
+                  have hs1 := SimL_set i hs h1
+                  split
+                  · exact ORel_pure ⟨⟨rfl, rfl, rfl, hs1, Or.inl rfl⟩, rfl⟩
+                  · split
+                    · exact ORel_pure ⟨⟨rfl, rfl, rfl, hs1, Or.inl rfl⟩, rfl⟩
+                    · refine ORel_bind ((unmark_sim f).1 a1 b1 a2 h1) (fun u u' hu => ?_)
+                      obtain ⟨u1, u2⟩ := u
+                      obtain ⟨w1, w2⟩ := u'
+                      obtain ⟨hu1, hu2⟩ := hu
+                      simp only at hu1 hu2
+                      cases hu2
+                      have hs2 := SimL_set i hs1 hu1
+                      simp only
+                      split
+                      · exact ORel_pure ⟨⟨rfl, rfl, rfl, hs2, Or.inl rfl⟩, rfl⟩
+                      · refine ORel_bind ((accept_sim f).1 _ _ u2 ⟨rfl, rfl, rfl, hs2, Or.inl rfl⟩
+                          (fun _ _ _ _ _ _ _ e e' => by cases e; cases e'; rfl)) (fun w w' hw => ?_)
+                        obtain ⟨p1, p2, p3⟩ := w
+                        obtain ⟨q1, q2, q3⟩ := w'
+                        obtain ⟨hw1, hw2⟩ := hw
+                        simp only at hw1 hw2
+                        cases hw2
+                        simp only
+                        split
+                        · exact ORel_pure ⟨hw1, rfl⟩
+                        · exact ORel_pure ⟨hw1, rfl⟩
+                split
+                · refine ORel_bind (ih1 x y es e3) (fun a a' haa => ?_)
+                  exact rest a a' haa _ _ rfl rfl
+                · rename_i hsim
+                  simp only [pure_bind'']
+                  exact rest (x, es, MT.nomore) (y, es, MT.nomore) ⟨e3, rfl⟩ _ _ rfl rfl
+          · -- free `choice1`: `choice = −1` selects no child, both sides stop at the same place
+            obtain ⟨hcm, _⟩ := hc
+            subst hcm
+            simp only [inRange_neg]
+            exact ORel_crash _
+      · simp only [tryNext, SimL_isEmpty hs, SimL_length hs]
+        split
+        · split
+          · exact ORel_ok ⟨⟨rfl, hs⟩, rfl⟩
+          · exact ORel_crash _
+        · refine ORel_bind (ih2 cs cs' _ es hs) (fun a a' haa => ?_)
+          obtain ⟨a1, a2, a3⟩ := a
+          obtain ⟨b1, b2, b3⟩ := a'
+          obtain ⟨h1, h2⟩ := haa
+          simp only at h1 h2
+          cases h2
+          exact ORel_pure ⟨⟨rfl, h1⟩, rfl⟩
+      · simp only [tryNext, SimL_isEmpty hs, SimL_length hs]
+        split
+        · split
+          · exact ORel_ok ⟨⟨rfl, hs⟩, rfl⟩
+          · exact ORel_crash _
+        · refine ORel_bind (ih2 cs cs' _ es hs) (fun a a' haa => ?_)
+          obtain ⟨a1, a2, a3⟩ := a
+          obtain ⟨b1, b2, b3⟩ := a'
+          obtain ⟨h1, h2⟩ := haa
+          simp only at h1 h2
+          cases h2
+          exact ORel_pure ⟨⟨rfl, h1⟩, rfl⟩
+    -- ---------------------------------------------------------- tryBack
+    · intro cs cs' start es h
+      simp only [tryBack, firstCand_sim h start]
+      split
+      · exact ORel_ok ⟨h, rfl⟩
+      · rename_i i _
+        rcases SimL_get i h with e | ⟨x, y, e1, e2, e3⟩
+        · rw [e.1, e.2]; exact ORel_ok ⟨h, rfl⟩
+        · rw [e1, e2]
+          refine ORel_bind' (ih1 x y es e3) (fun a a' hae _ haa => ?_)
+          obtain ⟨a1, a2, a3⟩ := a
+          obtain ⟨b1, b2, b3⟩ := a'
+          obtain ⟨h1, h2⟩ := haa
+          simp only at h1 h2
+          cases h2
+          have hs1 := SimL_set i h h1
+          simp only
+          split
+          · exact ORel_pure ⟨hs1, rfl⟩
+          · split
+            · rw [nextCands_sim hs1 i]
+              exact ih3 _ _ _ a2 hs1 (fun j hj ch hch => by
+                rw [← nextCands_sim hs1 i] at hj
+                exact nextCands_spec _ i j hj ch hch)
+            · split
+              · split
+                · exact ORel_pure ⟨hs1, rfl⟩
+                · exact ORel_crash _
+              · exact ih2 _ _ _ a2 hs1
+    -- ---------------------------------------------------------- tryFwd
+    · intro cs cs' js es h hjs
+      cases js with
+      | nil => simp only [tryFwd]; exact ORel_ok ⟨h, rfl⟩
+      | cons j js' =>
+        simp only [tryFwd]
+        rcases SimL_get j h with e | ⟨x, y, e1, e2, e3⟩
+        · rw [e.1, e.2]; exact ih3 cs cs' js' es h (fun j' hj' => hjs j' (List.mem_cons_of_mem _ hj'))
+        · rw [e1, e2]
+          have hal := hjs j (by simp) x e1
+          refine ORel_bind' ((accept_sim f).1 x y es e3 (TopFixed_of_als e3 hal)) (fun a a' hae _ haa => ?_)
+          obtain ⟨a1, a2, a3⟩ := a
+          obtain ⟨b1, b2, b3⟩ := a'
+          obtain ⟨h1, h2⟩ := haa
+          simp only at h1 h2
+          cases h2
+          have hs1 := SimL_set j h h1
+          have hsk := (accept_skel f).1 x es _ hae
+          simp only
+          split
+          · exact ORel_pure ⟨hs1, rfl⟩
+          · refine ih3 _ _ js' a2 hs1 (fun j' hj' ch hch => ?_)
+            by_cases hjj : j = j'
+            · subst hjj
+              have hjl : j < cs.length := (List.getElem?_eq_some_iff.mp e1).1
+              simp [hjl] at hch
+              rw [← hch]
+              simp only [ST.atLeastSome, viable_of_skel hsk]
+              exact hal
+            · rw [List.getElem?_set_ne hjj] at hch
+              exact hjs j' (List.mem_cons_of_mem _ hj') ch hch
+
 end StepModel.Complex.Match
